@@ -1,8 +1,97 @@
 import PestModel.Model.PStateSpec
-/-! # C12 — placeholder until the theorems land. -/
+import PestModel.Lemmas.PStateLimit
+/-!
+# C12 — a call limit never changes a result silently
+
+Property theorems only; helper lemmas in `PestModel/Lemmas/PStateLimit*.lean`.
+`finish` is the epilogue of `pest::state` (after the fix: the limit is reported on the `Ok` path too).
+-/
 namespace PestModel.C12
 open PestModel.PS
 
-theorem smoke : incCall { (PState.new [] (some 1) false) with calls := some (1, 1) } = none := by decide
+/-- The call counter only grows, the limit never changes, and a reached limit stays reached. -/
+theorem calls_monotone (cfg : Cfg) (fuel : Nat) (p : Prog) (s s' : PState)
+    (h : (run cfg fuel p s).state? = some s') :
+    (s.calls = none → s'.calls = none) ∧
+    (∀ c n, s.calls = some (c, n) → ∃ c', s'.calls = some (c', n) ∧ c ≤ c') :=
+  run_callsMono cfg fuel p s s' h
+
+/-- (consequence of `calls_monotone`) a reached limit stays reached. -/
+theorem reached_stays (cfg : Cfg) (fuel : Nat) (p : Prog) (s s' : PState)
+    (h : (run cfg fuel p s).state? = some s') (hr : reachedCallLimit s = true) :
+    reachedCallLimit s' = true :=
+  (run_callsMono cfg fuel p s s' h).reached hr
+
+/-- If the limit is not reached at the end, no call was refused, and the run is — state for state,
+apart from the counter — the run without a limit. -/
+theorem no_refusal_simulates (cfg : Cfg) (fuel : Nat) (p : Prog) (s s' : PState)
+    (h : (run cfg fuel p s).state? = some s') (hnr : reachedCallLimit s' = false) :
+    (run cfg fuel p s).mapState PState.eraseCalls = run cfg fuel p s.eraseCalls := by
+  have := run_relim cfg none fuel p s s' h hnr (fun m' hm => by simp at hm)
+  rw [relim_none_eq] at this
+  exact this.symm
+
+/-
+RESTATED.  The original statement
+
+    theorem limit_transparent (cfg : Cfg) (fuel : Nat) (p : Prog) (s : PState) :
+        (∃ pos, finish (run cfg fuel p s) = some (.callLimit pos)) ∨
+        finish (run cfg fuel p s) = finish (run cfg fuel p s.eraseCalls)
+
+is FALSE for runs of the model that do not complete (`panic` / out of fuel): after a refused call the
+limited run takes a different branch, on which it may panic or run out of fuel although the
+unlimited run completes.  Counterexamples (`cfg := { memchr := false, env := [] }`,
+`s := PState.new [] (some 1) false`, a well-formed initial state with limit 1):
+
+  * out of fuel, closed program, `fuel := 4`:
+      `p := .orElse (.sequence (.sequence .ok)) (.andThen .ok (.andThen .ok (.andThen .ok .ok)))`
+      `finish (run cfg 4 p s) = none`  but  `finish (run cfg 4 p s.eraseCalls) = some (.success [])`
+      (with `fuel := 5` the limited run reports `some (.callLimit 0)`);
+  * panic, `fuel := 10`: `p := .orElse (.sequence (.sequence .ok)) (.call 0)`
+      `finish (run cfg 10 p s) = none`  but  `finish (run cfg 10 p s.eraseCalls) = some (.success [])`.
+
+The honest statement is about completed limited runs (every real parse: Rust has no fuel, and a
+panic is not a result).
+-/
+/-- **With any call limit, a parse that completes reports either the call-limit error or exactly
+what it reports without a limit.** -/
+theorem limit_transparent (cfg : Cfg) (fuel : Nat) (p : Prog) (s s' : PState)
+    (hc : (run cfg fuel p s).state? = some s') :
+    (∃ pos, finish (run cfg fuel p s) = some (.callLimit pos)) ∨
+    finish (run cfg fuel p s) = finish (run cfg fuel p s.eraseCalls) := by
+  cases hr : reachedCallLimit s' with
+  | true => exact Or.inl ⟨_, finish_reached hc hr⟩
+  | false =>
+    right
+    rw [← no_refusal_simulates cfg fuel p s s' hc hr, ← relim_none_eq]
+    exact (finish_relim hc hr (fun m' hm => by simp at hm)).symm
+
+/-- the same, without mentioning the final state: a limited run reports nothing at all (model
+`panic`/out of fuel), the call-limit error, or exactly the report of the unlimited run. -/
+theorem limit_transparent' (cfg : Cfg) (fuel : Nat) (p : Prog) (s : PState) :
+    finish (run cfg fuel p s) = none ∨
+    (∃ pos, finish (run cfg fuel p s) = some (.callLimit pos)) ∨
+    finish (run cfg fuel p s) = finish (run cfg fuel p s.eraseCalls) := by
+  cases hs : (run cfg fuel p s).state? with
+  | some s' => exact Or.inr (limit_transparent cfg fuel p s s' hs)
+  | none =>
+    left
+    cases ho : run cfg fuel p s <;> rw [ho] at hs <;> simp [Out.state?] at hs <;> rfl
+
+/-- **A parse that completes under a limit completes identically under every larger limit.** -/
+theorem limit_monotone (cfg : Cfg) (fuel : Nat) (p : Prog) (s : PState) (c n m : Nat)
+    (hs : s.calls = some (c, n)) (hnm : n ≤ m) (rep : Report)
+    (h : finish (run cfg fuel p s) = some rep) (hnl : ∀ pos, rep ≠ .callLimit pos) :
+    finish (run cfg fuel p { s with calls := some (c, m) }) = some rep := by
+  obtain ⟨s', hc, hnr⟩ := finish_not_limit h hnl
+  have hok : LimOK (some m) s := by
+    intro m' hm c' n' h0
+    rw [hs] at h0; simp at hm h0; omega
+  have e : relim (some m) s = { s with calls := some (c, m) } := by
+    simp [tw, relimC, hs]
+  have := run_relim cfg (some m) fuel p s s' hc hnr hok
+  rw [e] at this
+  rw [this, finish_relim hc hnr (hok.mono (run_callsMono cfg fuel p s s' hc))]
+  exact h
 
 end PestModel.C12
